@@ -184,6 +184,19 @@ class Desugar(ast.NodeTransformer):
             a = ast.copy_location(ast.Return(value=s.value.body), s)
             b = ast.copy_location(ast.Return(value=s.value.orelse), s)
             return self._block([ast.copy_location(ast.If(test=s.value.test, body=[a], orelse=[]), s), b])
+        # a conditional expression nested in the value, evaluated before anything with an effect: split the statement
+        if isinstance(s, (ast.Assign, ast.AugAssign, ast.Return, ast.Expr)) and getattr(s, "value", None) is not None:
+            spot = _first_ifexp(s.value)
+            if spot is not None:
+                import copy
+                a, b = copy.deepcopy(s), copy.deepcopy(s)
+                ia, ib = _first_ifexp(a.value), _first_ifexp(b.value)
+                _replace(a, ia, ia[3].body)
+                _replace(b, ib, ib[3].orelse)
+                test = spot[3].test
+                if isinstance(s, ast.Return):
+                    return self._block([ast.copy_location(ast.If(test=test, body=[a], orelse=[]), s), b])
+                return self._block([ast.copy_location(ast.If(test=test, body=[a], orelse=[b]), s)])
         # comprehensions ------------------------------------------------------------------
         if isinstance(s, ast.Assign) and len(s.targets) == 1 and isinstance(s.targets[0], ast.Name):
             r = self._expand(s.targets[0].id, s.value, s)
@@ -288,6 +301,58 @@ class Desugar(ast.NodeTransformer):
             for h in node.handlers:
                 h.body = self._block(h.body)
         return node
+
+
+def _first_ifexp(val):
+    """(parent, field, index, IfExp) of a conditional expression nested in `val` such that nothing evaluated before it
+    has an effect (only names, attributes, constants, operators) and its own test is call-free; None otherwise"""
+    found = []
+
+    def pure(e):
+        for x in ast.walk(e):
+            if isinstance(x, ast.Call) and not (isinstance(x.func, ast.Name) and x.func.id in ("bool", "len", "isinstance", "abs", "min", "max")):
+                return False
+            if isinstance(x, (ast.Await, ast.Yield, ast.YieldFrom, ast.NamedExpr)):
+                return False
+        return True
+
+    def walk(node, parent, field, idx):
+        """returns False when an effectful node was met before any IfExp"""
+        if found:
+            return True
+        if isinstance(node, ast.IfExp):
+            if parent is not None and pure(node.test):
+                found.append((parent, field, idx, node))
+                return True
+            return False
+        if isinstance(node, (ast.Lambda, ast.ListComp, ast.SetComp, ast.DictComp, ast.GeneratorExp, ast.BoolOp)):
+            return pure(node)
+        # children in evaluation order; a call's own effect happens after its arguments
+        for f, v in ast.iter_fields(node):
+            if isinstance(v, list):
+                for i, x in enumerate(v):
+                    if isinstance(x, ast.AST) and not walk(x, node, f, i):
+                        return False
+                    if found:
+                        return True
+            elif isinstance(v, ast.AST):
+                if not walk(v, node, f, None):
+                    return False
+                if found:
+                    return True
+        return not isinstance(node, (ast.Call, ast.Await, ast.Yield, ast.YieldFrom, ast.NamedExpr))
+    if isinstance(val, ast.IfExp):
+        return None  # the whole-value case is handled separately
+    walk(val, None, None, None)
+    return found[0] if found else None
+
+
+def _replace(stmt, spot, new):
+    parent, field, idx, _ = spot
+    if idx is None:
+        setattr(parent, field, new)
+    else:
+        getattr(parent, field)[idx] = new
 
 
 class _PartsRewriter(ast.NodeTransformer):
